@@ -94,6 +94,14 @@ func NewPeer(cfg *Config) (*Peer, error) {
 		return nil, errors.New("raftstore: raft config must specify ID")
 	}
 	raftCfg.Storage = storage
+	// Proposals are only accepted by the store that currently leads the region
+	// (Store.ProposeCommand answers NotLeader otherwise). If leadership is lost
+	// between that check and node.Propose, raft would forward the proposal to
+	// the new leader as a MsgProp over the transport, where a retried or
+	// duplicated delivery appends, and later applies, the command twice. Drop
+	// such proposals instead so the caller gets an error and can retry at the
+	// new leader.
+	raftCfg.DisableProposalForwarding = true
 	node, err := myraft.NewRawNode(&raftCfg)
 	if err != nil {
 		return nil, err
